@@ -214,6 +214,13 @@ static int wait_created (int n) {          /* returns 0 if the note could not be
 static void check_wait_return (const char *what, int mi, int writer, int r, int64_t dl_ns, int ni) {
 	int64_t now = nsim_now_ns ();
 	check_held ("C05", what, mi, writer);
+	/* "once the note is notified the call needs no further wake-up": every notification posts the note's waiters before it
+	   returns, so a wait that was still asleep after all notifications had returned, and was released only by its own timer,
+	   was not on the note's waiter list (or was not woken from it) */
+	if (ni >= 0 && NM[ni].settled_ns >= 0 && nsim_op_last_timer_wake_ns () > NM[ni].settled_ns) {
+		VIOL ("C05", "cancelled-wait-slept-on", "%s with cancel note %d was released by its own timer %lld ns after every notification of the note had returned: "
+		      "it slept on although the note was notified", what, ni, (long long) (nsim_op_last_timer_wake_ns () - NM[ni].settled_ns));
+	}
 	if (r == ETIMEDOUT) {
 		nsim_probe (PR_WAIT_TIMEOUT);
 		if (dl_ns < 0) VIOL ("C05", "timeout-without-deadline", "%s returned ETIMEDOUT but no deadline was given", what);
